@@ -133,6 +133,15 @@ var readerOps = OpWeights{KOpen: 3, KRead: 4, KAdd: 3, KAutoCompact: 1}
 var writerOps = OpWeights{KAdd: 5, KCompactAll: 5, KAutoCompact: 2, KAddMulti: 1, KExpire: 1, KCompactRange: 4}
 
 func genC10(t *rapid.T) Case {
+	c := genC10base(t)
+	if rapid.IntRange(0, 4).Draw(t, "cancelFamily") == 2 {
+		// compactions with an empty result: a new list version that brings no new table
+		cancelFamily(t, &c, c.Cfg.HashSize())
+	}
+	return c
+}
+
+func genC10base(t *rapid.T) Case {
 	c := Case{Cfg: drawConcCfg(t)}
 	hs := c.Cfg.HashSize()
 	_, c.Init = drawInit(t, 6, hs, c.Cfg.Exact)
